@@ -196,6 +196,22 @@ Definition peek_declarator_name_info (fuel: nat) : M (option kind * bool) :=
   reset P mk ;;;
   ret r.
 
+(* _parse_function_decl: parameter names of a function definition enter the body's scope *)
+Fixpoint register_params (l: list node) : M unit :=
+  match l with
+  | [] => ret tt
+  | p :: r =>
+    if is_cls P C_EllipsisParam p then ret tt
+    else
+      match get_attr P a_name p with
+      | Some nm =>
+        if truthy P nm then
+          (n <- name_of_value P nm ;; pc <- coordA p ;; add_identifier P n pc ;;; register_params r)
+        else register_params r
+      | None => register_params r
+      end
+  end.
+
 Definition prec_of (k: kind) : option nat :=
   (fix go (l: list (kind * nat)) : option nat :=
      match l with [] => None | (k', p) :: r => if kind_eqb k k' then Some p else go r end) tbl_BINARY_PRECEDENCE.
@@ -851,21 +867,7 @@ with p_function_decl (fuel: nat) (base_decl: node) : M node :=
        | _ =>
          ps <- getA P a_params args ;;
          match ps with
-         | VList l =>
-           (fix reg (l: list node) : M unit :=
-              match l with
-              | [] => ret tt
-              | p :: r =>
-                if is_cls P C_EllipsisParam p then ret tt
-                else
-                  match get_attr P a_name p with
-                  | Some nm =>
-                    if truthy P nm then
-                      (n <- name_of_value P nm ;; pc <- coordA p ;; add_identifier P n pc ;;; reg r)
-                    else reg r
-                  | None => reg r
-                  end
-              end) l
+         | VList l => register_params l
          | _ => crash CK_Type
          end
        end
